@@ -144,6 +144,7 @@ SingleOps ==
   \cup {O("String", w, 0, 0) : w \in {1, 2, 4, 8}} \cup {O("String", 1, 1, 2), O("String", 4, 0, 2)}
   \cup {O("Prefix", 1, 2, 0), O("Prefix", 4, 1, 0)}
   \cup {O("Seq", w, e, 0) : w \in {1, 2, 4}, e \in {1, 2}} \cup {O("Seq", 8, 1, 0)}
+  \cup {O("Seq", 4, 3, 0)}       \* also the wire form of ds/serializableorderedmap [uint8 -> uint16]: count + (key, value) entries
 Chains == {
   <<O("Prefix", 1, 2, 0), O("Num", 2, 0, 0), O("VarBytes", 1, 0, 0), O("All", 0, 0, 0)>>,
   <<O("Bool", 0, 0, 0), O("Seq", 1, 1, 0), O("String", 1, 0, 0)>>,
